@@ -51,6 +51,12 @@ SHAPES = [
      ['len(a) <= 2', 'all(len(v) <= 2 for v in a.values())'], ['{1: (1,)}', '{1: (None,)}', '{}']),
     ('Union_List_Dict', 'Union[List[int], Dict[int, int]]', [('a', LOI), ('d', 'Dict[int, Optional[int]]'), ('k', 'bool')],
      '(a if k else d)', [], ['[1], {}, True', '[None], {}, True', '[], {1: None}, False', '[], {1: 1}, False']),
+    # children all ignorable: the rejection (wrong length / implicit Counter value hint) is not attributable to a child
+    ('TupleFixed_Any_object', 'Tuple[Any, object]', [('a', LOI)], 'tuple(a)', ['len(a) <= 3'], ['[1, 2]', '[1]', '[]', '[1, None, 2]']),
+    ('List_TupleFixed_Any', 'List[Tuple[Any, Any]]', [('a', LOI), ('b', LOI)], '[tuple(a), tuple(b)]', ['len(a) <= 3', 'len(b) <= 3'],
+     ['[1, 2], [1, 2]', '[1], [1, 2]', '[1, 2], []']),
+    ('Union_int_TupleFixed_object', 'Union[int, Tuple[object, object]]', [('a', LOI), ('k', 'bool')], '(tuple(a) if k else 3)', ['len(a) <= 3'],
+     ['[1, 2], True', '[1], True', '[], False']),
     ('TupleEmpty', 'Tuple[()]', [('a', LOI)], 'tuple(a)', ['len(a) <= 2'], ['[]', '[1]']),
     ('MutableSequence_int', 'MutableSequence[int]', [('a', LOI)], 'uc.UMutSeq(a)', [], ['[1]', '[None]', '[]']),
     ('AbstractSet_int', 'AbstractSet[int]', [('a', LOI)], 'uc.USet(a)', ['len(a) <= 3'], ['[1]', '[None]', '[]']),
@@ -68,7 +74,7 @@ CONFS = {
     'On': {'strategy': 'On'},
 }
 
-QUICK = [('TupleFixed_Iterable_int', 'default'), ('List_int', 'default'), ('Dict_int_int_value', 'warn'),
+QUICK = [('TupleFixed_Any_object', 'default'), ('TupleFixed_Iterable_int', 'default'), ('List_int', 'default'), ('Dict_int_int_value', 'warn'),
          ('Iterable_int_list', 'default'), ('Optional_int', 'exc'), ('Mapping_int_Listint', 'default'),
          ('TupleFixed_int_bool', 'mixed'), ('Sequence_int_user', 'retwarn'), ('Set_int', 'default'),
          ('Reversible_int_seq', 'nonrandom'), ('KeysView_int', 'default'), ('Annotated_int_vale', 'minimal')]
